@@ -9,6 +9,7 @@ From LV Require Import Base.Bytes Base.Sx Model.Obj Model.Writer Model.Parser Mo
   Spec.RefWriter Proofs.SpellingProofs Proofs.LitStringProofs Proofs.SpellingProofsLit
   Model.Loader Proofs.RealProofs Proofs.ObjectRtProofs.
 From LV Require Model.A85 Model.AsciiHex Spec.AsciiHexSpec Proofs.AsciiHexProofs.
+From LV Require Import Proofs.SpellingNumProofs Proofs.SpellingObjProofs.
 Local Open Scope N_scope.
 
 (* (1) Cross-reference streams.  For ALL field widths (0 = field absent, any positive width, not all three
@@ -174,6 +175,85 @@ Theorem C02_literal_any_spelling_partial :
     literal_string fuel (w_literal s st tc ++ rest) = POk s rest.
 Proof. exact literal_any_spelling_partial. Qed.
 
+(* a real in any value-preserving spelling: optional plus sign, leading zeros, trailing zeros after the point,
+   "5." for 5 and ".5" for 0.5.  The parser model keeps the matched text (DESIGN 3: decimal -> f32 is Rust std);
+   [same_dec] says the matched text has the decimal value of the canonical text [-]digits[.digits]. *)
+Theorem C02_real_any_spelling :
+  forall r (y : rstyle) rest,
+    real_wf r -> starts_with is_dec_digit rest = false ->
+    real (w_real r y ++ rest) = POk (w_real r y) rest /\ same_dec r (w_real r y).
+Proof. exact real_any_spelling. Qed.
+
+(* an indirect reference with leading zeros in both numbers and any filler (white-space, comments) between
+   the three parts *)
+Theorem C02_reference_any_spelling :
+  forall i g (y : ostyle) rest,
+    i <= u32_max -> g <= u16_max -> reference (w_ref i g y ++ rest) = POk (ORef i g) rest.
+Proof. exact reference_any_spelling. Qed.
+
+(* THE COMPOSITE LEVEL.  For every object o and EVERY style tree y (spelling of each scalar, any filler between
+   the tokens of references, arrays and dictionaries, at every nesting level), nested at most as deep as the
+   parser allows: parser::direct_object applied to the spelling returns [denote o y] -- the object itself, except
+   that a real carries the text that was matched and a string the format it was written in -- and stops in
+   front of [rest] (after skipping white-space), provided [rest] does not continue the last token
+   ([follow_ok]: no regular byte after a keyword or name, no digit / point / "g R" after a number; nothing for
+   strings, arrays, dictionaries, references).  [spell_wf]: integers are i64, reals canonical decimal texts,
+   reference numbers u32 / u16, dictionary keys distinct, no stream inside an object; literal strings as in
+   C02_literal_any_spelling_partial.  This generalises c14's object_rt from lopdf's spelling to any spelling. *)
+Theorem C02_object_any_spelling :
+  forall (o : obj) (y : ostyle) (rest : bytes) (fuel : nat),
+    spell_wf o y -> follow_ok true (denote o y) rest ->
+    (length (w_obj o y ++ rest) < fuel)%nat -> (nest o <= MAX_DEPTH)%nat ->
+    direct_object fuel (w_obj o y ++ rest) = POk (denote o y) (space rest).
+Proof. exact direct_object_any_spelling. Qed.
+
+(* the same at the level of the parser's ordered choice, at any remaining depth (what arrays, dictionaries and
+   content-stream operands call), with or without the reference alternative *)
+Theorem C02_object_alts_any_spelling :
+  forall o y ar rest f depth,
+    spell_wf o y -> ref_ok ar o -> follow_ok ar (denote o y) rest ->
+    (length (w_obj o y ++ rest) <= f)%nat -> (nest o <= depth)%nat ->
+    object_alts_c (direct_objects_at f (pred depth)) (depth_ok depth) ar f (w_obj o y ++ rest) = POk (denote o y) rest.
+Proof. exact spell_rt. Qed.
+
+(* the standalone dictionary parser (trailer, stream dictionary) *)
+Theorem C02_dictionary_any_spelling :
+  forall d y rest f,
+    spell_wf (ODict d) y -> (length (w_obj (ODict d) y ++ rest) < f)%nat -> (nest (ODict d) <= MAX_DEPTH)%nat ->
+    dictionary f (w_obj (ODict d) y ++ rest) = POk (denote_dict d (dict_sts y)) rest.
+Proof. exact dictionary_any_spelling. Qed.
+
+(* what is read back has the value that was written *)
+Theorem C02_denote_same_value : forall o y, spell_wf o y -> same_value o (denote o y).
+Proof. exact denote_same_value. Qed.
+
+Definition ex_obj : obj :=
+  ODict [(bs "K", OArr [OInt 7; OReal (bs "0.5"); ORef 12 0; ONull; OBool true; OStr (bs "a(b") false]);
+         (bs "", OName (bs "N x"))].
+Definition ex_ostyle : ostyle :=
+  YDict [FComment (bs "c") ECR]
+        [([NHex false true], [], YArr [FWs 5] [(YInt true 2, []); (YReal {| r_plus := true; r_lz := 1; r_tz := 2; r_drop0 := true |}, [FComment [] ELF]);
+                                            (YRef 1 0 [FWs 3; FWs 0] [FComment (bs "%") ECRLF], []); (YDefault, []); (YDefault, [FWs 2]);
+                                            (YStr (SLit [{| l_cont := [ELF]; l_ch := LOct 1 |}; {| l_cont := []; l_ch := LShort |}; {| l_cont := []; l_ch := LIgn |}] []), [])], []);
+         ([], [], YName [NPlain; NHex true true; NPlain], [FWs 1])].
+Theorem C02_example_object :
+  spell_wf ex_obj ex_ostyle /\
+  w_obj ex_obj ex_ostyle =
+    bs "<<%c" ++ [x0d] ++ bs "/#4B[" ++ [x00] ++ bs "+007 +.500%" ++ [x0a] ++ bs "012" ++ [x09] ++ bs " 0%%" ++ [x0d; x0a] ++
+    bs "R null true" ++ [x0d] ++ bs "(\" ++ [x0a] ++ bs "\141\(\142)]//N#20x" ++ [x0a] ++ bs ">>" /\
+  direct_object 200 (w_obj ex_obj ex_ostyle ++ bs " endobj") = POk (denote ex_obj ex_ostyle) (bs "endobj") /\
+  denote ex_obj ex_ostyle =
+    ODict [(bs "K", OArr [OInt 7; OReal (bs "+.500"); ORef 12 0; ONull; OBool true; OStr (bs "a(b") false]);
+           (bs "", OName (bs "N x"))].
+Proof.
+  split; [|repeat split; vm_compute; reflexivity].
+  cbn. split.
+  - constructor; [intros [H|[]]; discriminate|]. constructor; [intros []|constructor].
+  - repeat split; try reflexivity; try (unfold u32_max, u16_max; lia).
+    + exists false, (bs "0"), (bs "5"). repeat split; try reflexivity. discriminate.
+    + right. reflexivity.
+Qed.
+
 Definition ex_lit : bytes := [x41; x0a; x28; x5c; x07; x39; x0d].
 Definition ex_lit_style : list lpos :=
   [{| l_cont := [ECR]; l_ch := LIgn |}; {| l_cont := []; l_ch := LRaw |}; {| l_cont := []; l_ch := LShort |};
@@ -208,24 +288,8 @@ Proof. repeat split; vm_compute; reflexivity. Qed.
    implementation (and on Model/Loader.v where it applies) for every generated (style, document) pair.
    --------------------------------------------------------------------------------------------- *)
 
-(* same value: reals by their decimal value, strings without their format, dictionaries in file order *)
-Definition dec_value_eq (r1 r2 : bytes) : Prop :=
-  exists n1 d1 f1 n2 d2 f2,
-    r1 = real_text n1 d1 f1 /\ r2 = real_text n2 d2 f2 /\
-    digits_val (d1 ++ f1) * 10 ^ N.of_nat (length f2) = digits_val (d2 ++ f2) * 10 ^ N.of_nat (length f1) /\
-    (n1 = n2 \/ digits_val (d1 ++ f1) = 0).
-Inductive same_value : obj -> obj -> Prop :=
-| sv_null : same_value ONull ONull
-| sv_bool b : same_value (OBool b) (OBool b)
-| sv_int z : same_value (OInt z) (OInt z)
-| sv_real r1 r2 : dec_value_eq r1 r2 -> same_value (OReal r1) (OReal r2)
-| sv_name n : same_value (OName n) (OName n)
-| sv_str s h1 h2 : same_value (OStr s h1) (OStr s h2)
-| sv_ref i g : same_value (ORef i g) (ORef i g)
-| sv_arr l1 l2 : Forall2 same_value l1 l2 -> same_value (OArr l1) (OArr l2)
-| sv_dict d1 d2 : Forall2 (fun a b => fst a = fst b /\ same_value (snd a) (snd b)) d1 d2 -> same_value (ODict d1) (ODict d2)
-| sv_stream d1 d2 c : Forall2 (fun a b => fst a = fst b /\ same_value (snd a) (snd b)) d1 d2 ->
-                      same_value (OStream d1 c) (OStream d2 c).
+(* same value ([same_value], Proofs/SpellingObjProofs.v): reals by their decimal value ([same_dec]), strings without
+   their format, dictionaries in file order *)
 
 (* abstract documents in the claimed domain: one object per number (single revision), numbers 1..2^32-2,
    generations below 2^16, direct objects the data model can hold (c14's obj_wf), streams only at top level
@@ -348,6 +412,13 @@ Print Assumptions C02_name_any_spelling.
 Print Assumptions C02_hex_string_any_spelling.
 Print Assumptions C02_integer_any_spelling.
 Print Assumptions C02_literal_any_spelling_partial.
+Print Assumptions C02_real_any_spelling.
+Print Assumptions C02_reference_any_spelling.
+Print Assumptions C02_object_any_spelling.
+Print Assumptions C02_object_alts_any_spelling.
+Print Assumptions C02_dictionary_any_spelling.
+Print Assumptions C02_denote_same_value.
+Print Assumptions C02_example_object.
 Print Assumptions C02_example_literal.
 Print Assumptions C02_example_spellings.
 Print Assumptions C02_example_stream.
